@@ -2775,6 +2775,7 @@ static WUR iwrc _cursor_to_lr(struct iwkv_cursor *cur, IWKV_cursor_op op) {
     if (cur->cn) {
       _sblk_release(lx, &cur->cn);
     }
+    cur->skip_next = 0;
     if (op == IWKV_CURSOR_BEFORE_FIRST) {
       cur->dbaddr = db->addr;
       cur->cnpos = KVBLK_IDXNUM - 1;
